@@ -146,6 +146,14 @@ class Session:
                            witness_id="raises:%s:%s" % (last.name if last else "?", type(e).__name__), replay={"reproduced": True, "raised": repr(e)[:300]})
                 r.time_s = time.time() - t
                 return r
+            if in_repo and harness_like and not (last is not None and (last.line or "").lstrip().startswith("raise")
+                                                 and os.path.realpath(last.filename).startswith(repo_root)):
+                # the code under verification used a stub / symbolic value in a way the contract stubs do not model
+                # (missing attribute, unsupported argument type ...): outside the engine's subset -> undecided, not a verdict
+                r = Result(UNKNOWN, "engine", "outside subset: the code used a contract stub in a way it does not model (%s: %s)\n%s"
+                           % (type(e).__name__, str(e)[:200], traceback.format_exc()[-700:]))
+                r.time_s = time.time() - t
+                return r
             if last is not None and os.path.realpath(last.filename).startswith(os.path.realpath(REPO) + os.sep) \
                     and (last.line or "").lstrip().startswith("raise"):
                 # an explicit `raise` in the code under verification on inputs satisfying the contract's
